@@ -151,6 +151,12 @@ func TestC01(t *testing.T) {
 		j := jobs[k]
 		runCircuit(r, j.ops, j.idx)
 	})
+	// commitment-binding audit (frontend side of the commitments: what each challenge depends on)
+	vcore.Parallel(len(cvs), 7, func(k int) {
+		bindingAudit(r, cvs[k].ID, r.Pick(40, 400))
+	})
+	r.Require("binding.bound-through-an-earlier-commitment", 20)
+	r.Require("binding.bound-directly", 100)
 	r.Require("commitment-keys.pairs-audited", int64(9*len(cvs)))
 	r.Require("rejected.replay", 10)
 	r.Require("rejected.single-edit", 100)
